@@ -22,11 +22,17 @@ def FLOORS(tier):
     f = {"symbolic-values": 100 if q else 5000, "normalize-method": 300, "subvalue-method": 300, "subgraph-method": 300,
          "complete-assignment": 100, "empty-assignment": 60, "plain-polynomial:subvalue": 60,
          "plain-polynomial:subgraph": 60, "values-container:defaultdict": 150, "values-container:Counter": 150,
-         "sympy-number-coefficients": 200}
+         "sympy-number-coefficients": 200, "narrow-numpy-coefficients": 200, "values-container:MappingProxyType": 80,
+         "values-container:ChainMap": 80, "normalize-method:again-after-raw-removal": 40}
     for fn in ("subvalue", "subgraph", "normalize"):
         for t in ALLT:
             f["%s:%s" % (fn, t)] = 40 if q else 1500
     return f
+
+
+def NTOL():
+    """comparison tolerance of the normalize checks: float32 inputs keep float32 precision (numpy's rule, not the library's)"""
+    return F(1, 10 ** 5) if build.narrow else F(1, 10 ** 12)
 
 
 def kind_of_name(tn, rng):
@@ -44,7 +50,14 @@ def build(rng, tn, kind):
         k = tuple(gen.sort_labels(rng.sample(labs, rng.randint(0, min(len(labs), 2 if deg2 else 4)))))
         terms[k] = terms.get(k, 0) + rng.choice(gen.DYADIC)
     terms = {k: v for k, v in terms.items() if v}
-    if not mat and rng.random() < 0.15:
+    if rng.random() < 0.1 and terms:
+        # coefficients taken from a compact numpy weight array (int8 / uint8 / float32), near the limits of their type: the
+        # arithmetic of the utilities is that of ordinary numbers, whatever the storage type of the input
+        import numpy as np
+        ty, pool = rng.choice([(np.int8, [100, -90, 7, 120, -120]), (np.uint8, [200, 7, 250, 1]), (np.float32, [16777216.0, 1.0, 3.0, -16777216.0])])
+        terms = {k: ty(rng.choice(pool)) for k in terms}
+        build.narrow = True
+    elif not mat and rng.random() < 0.15:
         # coefficients that are sympy numbers (what is left when the symbols of a symbolic model cancel or are simplified)
         import sympy
         terms = {k: (sympy.Rational(str(F(v))) if rng.random() < 0.7 else v) for k, v in terms.items()}
@@ -135,11 +148,14 @@ def case(ctx, rng, idx):
     tn = rng.choice(ALLT)
     kind = kind_of_name(tn, rng)
     build.sympy_numbers = False
+    build.narrow = False
     m, labs = build(rng, tn, kind)
     if not m:
         return
     if build.sympy_numbers:
         ctx.cat("sympy-number-coefficients")
+    if build.narrow:
+        ctx.cat("narrow-numpy-coefficients")
     # plain dicts / DictArithmetic have no squashing: keys are sets of distinct labels, 'kind' only names the algebra
     p = ref.from_raw("bool", dict(m)) if tn in ("dict", "DictArithmetic") else ref.from_raw(kind, dict(m))
     fn = rng.choice(["subvalue", "subgraph", "normalize"])
@@ -150,7 +166,7 @@ def case(ctx, rng, idx):
     if fn == "subvalue":
         k = rng.choice([0, 1, 2, len(labs), len(labs)])
         chosen = rng.sample(labs, min(k, len(labs)))
-        symbolic = rng.random() < 0.3 and not tn.endswith("Matrix")
+        symbolic = rng.random() < 0.3 and not tn.endswith("Matrix") and not build.narrow
         syms = {}
         if symbolic:
             ctx.cat("symbolic-values")
@@ -230,6 +246,23 @@ def case(ctx, rng, idx):
             if r is not None:
                 ctx.violation("normalize-method:returns-value", "method returned %r (documented in place)" % (r,), w)
                 return
+            if len(c) >= 2 and rng.random() < 0.3:
+                # the largest term is removed with a plain dict mutator (del / pop), then the same normalisation is asked again
+                kmax = max(c, key=lambda k_: abs(frac(c[k_])))
+                if rng.random() < 0.5:
+                    del c[kmax]
+                else:
+                    c.pop(kmax)
+                ctx.cat("normalize-method:again-after-raw-removal")
+                w["then"] = ["removed %r with a dict mutator" % (kmax,), "normalize(%r) again" % (val,)]
+                ok, _ = ctx.call("normalize-method", c.normalize, val, _w=w)
+                if not ok:
+                    return
+                if c:
+                    gm = max(abs(frac(v)) for v in c.values())
+                    if abs(gm - abs(frac(val))) > NTOL():
+                        ctx.violation("normalize:max-magnitude-wrong:second-call", "after removing the largest term and normalising again the largest magnitude is %r, requested %r" % (float(gm), val), w)
+                return
             r = c
         else:
             ok, r = ctx.call("normalize", L.utils.normalize, m, val, _w=w)
@@ -245,11 +278,11 @@ def case(ctx, rng, idx):
             return
         scale = float(mx)
         for k in exp:
-            if abs(frac(r[k]) - exp[k]) > F(1, 10 ** 12) * max(1, abs(exp[k])):
+            if abs(frac(r[k]) - exp[k]) > NTOL() * max(1, abs(exp[k])):
                 ctx.violation("normalize:not-one-common-factor", "coefficient %r: got %r expected %r" % (k, r[k], float(exp[k])), w)
                 return
         got_max = max(abs(frac(v)) for v in r.values())
-        if abs(got_max - abs(frac(val))) > F(1, 10 ** 12):
+        if abs(got_max - abs(frac(val))) > NTOL():
             ctx.violation("normalize:max-magnitude-wrong", "largest magnitude %r, requested %r" % (float(got_max), val), w)
             return
         if len(snap) >= 2:
@@ -273,7 +306,7 @@ def container(ctx, rng, vals, w):
     which variables are substituted is decided by membership, and the caller's mapping is not to be filled"""
     import collections
     snap = dict(vals)
-    how = rng.choice(["dict", "dict", "defaultdict", "Counter", "OrderedDict"])
+    how = rng.choice(["dict", "dict", "defaultdict", "Counter", "OrderedDict", "MappingProxyType", "ChainMap", "UserDict"])
     w["values_container"] = how
     ctx.cat("values-container:" + how)
     if how == "defaultdict":
@@ -285,6 +318,14 @@ def container(ctx, rng, vals, w):
         return c, snap
     if how == "OrderedDict":
         return collections.OrderedDict(vals), snap
+    if how == "MappingProxyType":          # any Mapping will do, not only dict subclasses
+        import types
+        return types.MappingProxyType(dict(vals)), snap
+    if how == "ChainMap":
+        items = list(vals.items())
+        return collections.ChainMap(dict(items[:1]), dict(items[1:])), snap
+    if how == "UserDict":
+        return collections.UserDict(vals), snap
     return vals, snap
 
 
@@ -299,6 +340,17 @@ def check_common(ctx, fn, m, snap, r, w):
         ctx.violation(fn + ":zero-coefficient-stored", "result stores a zero coefficient: %r" % (dict(r),), w)
         return False
     return True
+
+
+def _exact(vv):
+    """a sympy number as a Fraction"""
+    import sympy
+    if getattr(vv, "is_Rational", False):
+        return F(int(vv.p), int(vv.q))
+    try:
+        return F(str(sympy.nsimplify(vv)))
+    except ValueError:
+        return F(float(vv))
 
 
 def compare(ctx, fn, kind, r, p, vals, syms, rng, w):
@@ -318,7 +370,7 @@ def compare(ctx, fn, kind, r, p, vals, syms, rng, w):
         got = Poly(kind)
         for k, v in r.items():
             vv = v.subs(point) if hasattr(v, "subs") else v
-            got.add(k, F(str(sympy.nsimplify(vv))) if hasattr(vv, "is_number") else vv)
+            got.add(k, _exact(vv) if hasattr(vv, "is_number") else vv)
         if got != exp:
             ctx.violation(fn + ":function-changed:symbolic", "at %r got %r expected %r" % (point, got.show(), exp.show()), w)
             return False
